@@ -82,11 +82,15 @@ def rand_body_node(rng, ids, depth, dep_p=0.25):
 
 def rand_case(rng, nested=False):
     ids = lg.Ids()
-    shape = rng.choice(["fragment", "fragment", "list", "body", "html_full", "html_nohead", "html_head_late", "html_nobody", "html_deps_under", "two_roots"])
+    shape = rng.choice(["fragment", "fragment", "list", "body", "html_full", "html_nohead", "html_head_late", "html_nobody", "html_deps_under", "two_roots",
+                        "body_plus_meta_siblings", "html_plus_meta_siblings"])
     kids = [rand_body_node(rng, ids, rng.choice([0, 1, 2, 3])) for _ in range(rng.randint(0, 4))]
     if nested:
         kids.insert(rng.randint(0, len(kids)), rand_dep(rng, ids, nested_dep=True))
     user_head = [gen.TAG("title", {"k": "text", "s": "UT"}), gen.TAG("meta", attrs=[["name", {"t": "str", "s": "um"}]])][: rng.randint(0, 2)]
+    if rng.random() < 0.25:
+        # the user's own charset declaration (any value, any position) does not replace the document's
+        user_head.insert(rng.randint(0, len(user_head)), gen.TAG("meta", attrs=[["charset", {"t": "str", "s": rng.choice(["latin-1", "utf-8", "UTF-8"])}]]))
     if rng.random() < 0.3:
         user_head.append(rand_dep(rng, ids))
     hattrs = [["lang", {"t": "str", "s": "fr"}], ["class", {"t": "str", "s": "k1"}]][: rng.randint(0, 2)]
@@ -106,12 +110,28 @@ def rand_case(rng, nested=False):
         content = [gen.TAG("html", gen.TAG("head", *user_head, via_fn=False), *kids, via_fn=False, attrs=hattrs)]
     elif shape == "html_deps_under":
         content = [gen.TAG("html", rand_dep(rng, ids), gen.TAG("head", *user_head, via_fn=False), rand_dep(rng, ids), gen.TAG("body", *kids, via_fn=False), via_fn=False)]
+    elif shape == "body_plus_meta_siblings":
+        sib = [rand_dep(rng, ids) if rng.random() < 0.7 else {"k": "headc", "c": [gen.TAG("title", {"k": "text", "s": "hc%d" % rng.randint(1, 3)})]}
+               for _ in range(rng.randint(1, 3))]
+        k = rng.randint(0, len(sib))
+        content = sib[:k] + [gen.TAG("body", *kids, via_fn=False)] + sib[k:]
+    elif shape == "html_plus_meta_siblings":
+        sib = [rand_dep(rng, ids) if rng.random() < 0.7 else {"k": "meta"} for _ in range(rng.randint(1, 2))]
+        k = rng.randint(0, len(sib))
+        content = sib[:k] + [gen.TAG("html", gen.TAG("head", *user_head, via_fn=False), gen.TAG("body", *kids, via_fn=False), via_fn=False, attrs=hattrs)] + sib[k:]
     else:
         content = [gen.TAG("html", gen.TAG("body", via_fn=False), via_fn=False), gen.TAG("body", *kids, via_fn=False)]
     kw = rng.choice([[], [["lang", {"t": "str", "s": "en"}]], [["lang", {"t": "str", "s": "en"}], ["data_x", {"t": "true"}]],
                      [["class_", {"t": "str", "s": "doc"}], ["gone", {"t": "none"}]]])
     n_late = rng.choice([0, 0, 1, 2, 3]) if shape in ("fragment", "list") else 0
-    return {"shape": shape, "content": content, "late": [rand_body_node(rng, ids, 1) for _ in range(n_late)], "kw": kw,
+    if shape == "body_plus_meta_siblings" and rng.random() < 0.5:
+        # the siblings arrive later through append()
+        body_i = next(i for i, c in enumerate(content) if c["k"] == "tag")
+        late_sibs = content[body_i + 1:]
+        content = content[: body_i + 1]
+    else:
+        late_sibs = []
+    return {"shape": shape, "content": content, "late": late_sibs + [rand_body_node(rng, ids, 1) for _ in range(n_late)], "kw": kw,
             "lib_prefix": rng.choice(["lib", "lib", None, "", "a/b"]), "include_version": rng.random() < 0.7, "late_together": rng.random() < 0.5}
 
 
